@@ -2,7 +2,7 @@
 import os
 import subprocess
 from vlib import CaseT, repo_bin
-from wbprop import WigBedProp
+from wbprop import WigBedProp, byte_level_check
 import bbgen
 
 
@@ -30,13 +30,18 @@ class C11(WigBedProp):
             bed = r.chance(1, 2)
             fmt = {"compress": r.choice([0, 1]), "ips": r.choice([1, 2, 7, 1024]), "bs": r.choice([2, 5, 256]),
                    "zooms": r.choice(["auto", "10,40", "none", "4,16,64"]), "pass": r.choice([1, 2])}
+            if g % 3 == 0:
+                # a group the byte-level Lean writer model applies to: its bytes must be the model's bytes as well
+                bed = False
+                fmt["compress"] = 0
+                fmt["zooms"] = r.choice(["10,40", "none", "4,16,64"])
             if fmt["zooms"] == "auto":
                 fmt["izs"] = r.choice([4, 10, 160])
             if bed:
                 names, sizes, data, tags = bbgen.gen_bed_input(r, nchrom=r.choice([2, 3, 6, 8]), maxn=30)
                 body = bbgen.bed_lines(names, sizes, data)
             else:
-                names, sizes, data, tags = bbgen.gen_wig_input(r, nchrom=r.choice([2, 3, 6, 8]), value_mode="bits", maxn=40)
+                names, sizes, data, tags = bbgen.gen_wig_input(r, nchrom=r.choice([2, 3, 6, 8]), value_mode="int" if g % 3 == 0 or g % 2 == 0 else "bits", maxn=40)
                 body = bbgen.wig_lines(names, sizes, data)
             configs = [{"threads": 1, "rt": "ct", "chan": 0, "inmem": 0, "src": "iter", "delay": 0}]
             lattice = []
@@ -98,6 +103,7 @@ class C11(WigBedProp):
                                   f"# the two configurations above (same input and format options) produced different bytes: reference `{ref}`, this one `{b}`\n"
                                   f"# replay: ./check C11 --replay runs both cases; compare their BYTES lines\n")
         rep.coverage["groups_compared"] = ngroups
+        byte_level_check(self, rep, workdir)          # the reference bytes are also the Lean writer model's bytes, where it applies
         rep.coverage["delay_points_passed"] = dp
         # converters: -t N text = -t 1 text
         d = os.path.join(workdir, "cli")
